@@ -148,7 +148,8 @@ pub fn gen_string(rng: &mut Rng, allow_large: bool) -> String {
         0 => String::new(),
         1..=8 => rng.pick(&WORDS).to_string(),
         9..=14 => {
-            let n = rng.below(12) as usize;
+            // mostly short; one in six is long with characters of mixed width (char boundaries at no regular offset)
+            let n = if rng.chance(1, 6) { 12 + rng.below(150) as usize } else { rng.below(12) as usize };
             let mut s = String::new();
             for _ in 0..n {
                 let bmp = rng.chance(3, 4);
@@ -339,8 +340,19 @@ fn gen(ty: &Ty, rng: &mut Rng, ctx: &GenCtx, depth: usize) -> Val {
             Ty::Weekday | Ty::Month => return Val::U(wild(rng, &[0, 1, 7, 8, 12, 13, 127, 128, 255], 0, 255) as u128),
             Ty::FixedOffset => return wild_offset(rng),
             Ty::Tz => {
-                if rng.chance(1, 2) {
-                    return Val::Str(gen_string(rng, false));
+                match rng.below(6) {
+                    0..=1 => return Val::Str(gen_string(rng, false)),
+                    2 => {
+                        // longer than any real zone name, characters of mixed width
+                        let n = 20 + rng.below(120) as usize;
+                        let mut name = String::new();
+                        for _ in 0..n {
+                            let bmp = rng.chance(3, 4);
+                            name.push(char::from_u32(gen_char(rng, bmp)).unwrap());
+                        }
+                        return Val::Str(name);
+                    }
+                    _ => {}
                 }
             }
             Ty::DateTimeUtc => {
